@@ -248,6 +248,17 @@ def gen(repo):
     guards.append(("udp_export_tmp_created_truncating",
                    re.search(r"File::create\(\s*config\s*\.scrape_exports\s*\.tmp_path\(\)\s*\)", udp_swarm) is not None,
                    "crates/udp/src/swarm.rs clean_and_update_statistics (File::create(tmp_path))"))
+    # http swarm worker: how often the shared peer_valid_until sample is refreshed (seconds; 0 = not a
+    # literal constant any more)
+    http_swarm_mod = strip_comments(read(repo, "crates/http/src/workers/swarm/mod.rs"))
+    m = re.search(r"\*peer_valid_until\.borrow_mut\(\)\s*=\s*valid_until;.*?Some\(([^\n;]*)\)\s*\}\)\(\)", http_swarm_mod, flags=re.S)
+    refresh = 0
+    if m:
+        lit = re.fullmatch(r"\s*Duration::from_secs\((\d+)\)\s*", m.group(1))
+        if lit:
+            refresh = int(lit.group(1))
+    out.append("(* crates/http/src/workers/swarm/mod.rs: refresh period of the peer_valid_until sample, seconds (0: not a literal) *)")
+    out.append("Definition http_peer_valid_until_refresh_secs : N := %d%%N." % refresh)
     for name, val, src in guards:
         out.append("(* %s *)" % src)
         out.append("Definition %s : bool := %s." % (name, "true" if val else "false"))
